@@ -130,6 +130,11 @@ class CallsMixin:
                 s2, e = self.new_exception(s, clsname, msg=msg)
                 outs.append((s2, e))
             return outs
+        ci = self.ct.classes.get(clsname)
+        if ci is not None and self.ct.resolve_method(clsname, '__init__') is None and not node.args and not node.keywords:
+            # a class without constructor logic: a fresh attribute-less instance
+            h2, a = st.heap.new(Z.K_OBJ, klass=z3.IntVal(self.ct.cid(clsname)), dk=empty_keys(), dv=z3.K(Val, Z.NONE), dsize=z3.IntVal(0))
+            return [(st.with_heap(h2), Z.mk_ref(a))]
         raise Unsupported("construction of " + clsname, node)
 
     # ------------------------------------------------------------------ method calls
@@ -849,6 +854,16 @@ class CallsMixin:
             phi = self.spec_eval(cl, st, env=env)
             self.add_vc('callee-pre', "call %s requires[%d]" % (label, k), st, phi, clause=cl, node=node)
             st = st.assume(phi)
+        # ghost names of the callee's contract (defined over its pre-state)
+        if con.ghost:
+            env = dict(env)
+            for gname, gexpr in con.ghost.items():
+                gtree = ast.parse(gexpr.strip(), mode='eval').body
+                self.spec += 1
+                try:
+                    env[gname] = self.ev1(gtree, st.clone(env=env))
+                finally:
+                    self.spec -= 1
         # 2. heap effect
         if con.pure:
             h2, facts = st.heap, []
@@ -1133,6 +1148,19 @@ class CallsMixin:
         arr = z3.Lambda([k], f(Z.mk_i(first + k * step)))
         self.sum_terms.append((arr, count))
         return Z.mk_r(Z.SUMR(arr, count))
+
+    def spec_sum_field(self, node, st):
+        """sum_field(L, 'k') = sum of L[i]['k'] over the list L"""
+        lst = self.ev1(node.args[0], st)
+        field = Z.mk_s(node.args[1].value)
+        h = st.heap
+        a = Z.addr(lst)
+        arr = h.elems(a)
+        k = z3.Int('k!sf')
+        vals = z3.Lambda([k], z3.Select(z3.Select(h.dv, Z.addr(z3.Select(arr, k))), field))
+        n = h.len_of(a)
+        self.sum_terms.append((vals, n))
+        return Z.mk_r(Z.SUMR(vals, n))
 
     def spec_prefix_count(self, node, st):
         """prefix_count(xs, k, 'field') = sum_{i<k} len(xs[i][field]): uninterpreted PC with instances of its recurrence
